@@ -371,6 +371,14 @@ class C08(Check):
         wn.options.time.hydraulic_timestep = spec["hstep"]
         wn.options.time.report_timestep = spec["report"]
         wn.options.time.pattern_timestep = spec["hstep"]
+        if spec.get("isolate") is not None:
+            # a leaf junction JL behind pipe PL which a time control closes at spec["isolate"]: from then on JL is cut off
+            # from every source; a leak still active there must report zero (its reported pressure is zero)
+            wn.add_junction("JL", base_demand=0.002, elevation=8.0)
+            wn.add_pipe("PL", "J1", "JL", length=150.0, diameter=0.25, roughness=100.0)
+            act = wntr.network.controls.ControlAction(wn.get_link("PL"), "status", wntr.network.LinkStatus.Closed)
+            cond = wntr.network.controls.SimTimeCondition(wn, "=", int(spec["isolate"]))
+            wn.add_control("close_PL", wntr.network.controls.Control(cond, act))
         for nm, (area, cd, st, en) in spec["leaks"].items():
             wn.get_node(nm).add_leak(wn, area, cd, st, en)
         windows = {nm: (st, en) for nm, (a, c, st, en) in spec["leaks"].items()}
@@ -472,7 +480,12 @@ class C08(Check):
                 area = rng.choice([1e-4, 0.001, 0.005]) if nm != "T" else rng.choice([0.002, 0.01])
                 leaks[nm] = (area, rng.choice([0.75, 0.6, 1.0]), st, en)
             spec = {"mode": rng.choice(["DD", "PDD"]), "hstep": hstep, "report": rng.choice(["ALL", hstep, hstep]), "duration": duration, "leaks": leaks}
-            if rng.random() < 0.35:
+            if i % 4 == 1:
+                # the leaking leaf junction JL is isolated while its leak is active
+                tiso = rng.choice([hstep, 2 * hstep, hstep + hstep // 2, 2 * hstep - 7])
+                spec["isolate"] = tiso
+                leaks["JL"] = (rng.choice([1e-4, 0.001, 0.005]), rng.choice([0.75, 0.6, 1.0]), rng.choice([0, hstep // 2, 1]), rng.choice([None, duration + hstep, tiso + hstep]))
+            elif rng.random() < 0.35:
                 spec["pause"] = hstep * rng.randint(1, nst - 1)
                 spec["remove"] = [nm for nm in nodes if rng.random() < 0.7] or nodes[:1]
             specs.append(spec)
@@ -491,7 +504,7 @@ class C08(Check):
         failures, broken = [], []
         for fn, c in vlib.corpus_items(self.pid):
             if c.get("kind") == "sim":
-                failures += self._sim_case(ctx, wntr, {k: (tuple(v) if isinstance(v, list) and k != "remove" else v) for k, v in c.items() if k in ("mode", "hstep", "report", "duration", "leaks", "pause", "remove")} | {"leaks": {n: tuple(v) for n, v in c["leaks"].items()}})
+                failures += self._sim_case(ctx, wntr, {k: (tuple(v) if isinstance(v, list) and k != "remove" else v) for k, v in c.items() if k in ("mode", "hstep", "report", "duration", "leaks", "pause", "remove", "isolate")} | {"leaks": {n: tuple(v) for n, v in c["leaks"].items()}})
         f, b = self._leak_rows(ctx, wntr, 12 if ctx.quick else 120)
         failures += f
         broken += b
@@ -505,7 +518,7 @@ class C08(Check):
             fs = self._sim_case(ctx, wntr, spec)
             failures += fs
             if len(ctx.samples) < 4:
-                ctx.sample({k: spec[k] for k in ("mode", "hstep", "report", "duration", "leaks") if k in spec} | {"pause": spec.get("pause"), "failures": len(fs)})
+                ctx.sample({k: spec[k] for k in ("mode", "hstep", "report", "duration", "leaks", "isolate") if k in spec} | {"pause": spec.get("pause"), "failures": len(fs)})
         failures.sort(key=lambda x: len(json.dumps(x.replay, default=str)))
         return failures, broken
 
